@@ -132,6 +132,11 @@ NumCases == {
   One(Eq(b, Hx(10, 4)), "hex-literal"), One(Eq(b, Bn(5, 4)), "bin-literal"), One(Eq(b, BvL(9, 4)), "bv-underscore-literal"),
   One(Eq(Ap("concat", <<b, Hx(171, 8)>>), Ap("concat", <<c, Bn(2, 8)>>)), "hex-width"),
   One(Eq(s, St(<<97, 34, 98>>)), "string-with-quote"), One(Eq(s, St(<<>>)), "empty-string"),
+  \* escape sequences of the Strings theory: "\u{41}" and "\u0041" are the one-character string "A"
+  One(Eq(Ap("str.len", <<St(<<92, 117, 123, 52, 49, 125>>)>>), Nm(1)), "string-escape-braces"),
+  One(Eq(s, St(<<97, 92, 117, 48, 48, 52, 49, 98>>)), "string-escape-four-digits"),
+  One(Eq(s, St(<<92, 117, 123, 51, 98, 49, 125, 92, 120>>)), "string-escape-greek-and-plain-backslash"),
+  One(Eq(s, St(<<233, 92, 117, 123, 122, 125>>)), "string-non-ascii-and-non-escape"),
   Rej(Eq(b, BvL(16, 4)), "bv-literal-out-of-range"),
   Rej(Eq(b, Hx(10, 8)), "hex-wrong-width") }
 
